@@ -28,6 +28,11 @@ class Template:
     pad_ok: bool = True     # may the statement be preceded by `p = 0; ` on the same line
     min_gap: int = 0        # blank lines forced after the site
     quick: bool = True
+    lost_when_enclosed: bool = False   # on_result_found rebuilds a selected node from original_node (replace_args(original_node, ..)):
+                                       # the rewrite of a selected node nested in another selected node is discarded
+    acts_on_any_selected: bool = True  # the transformer acts on (and reports a change for) every selected tested node; False: it first
+                                       # checks that the node is the construct it fixes, so only the site nodes count
+    entry_span: int = 1     # change entries reported per selected node, at consecutive lines from its start line
     extra: dict = field(default_factory=dict)
 
 
@@ -36,13 +41,13 @@ TEMPLATES = [
     Template("sonar:python/timezone-aware-datetime", "sonar", "python:S6903", "import datetime\n",
              "v{i} = datetime.datetime.utcnow()", "value"),
     Template("sonar:python/jwt-decode-verify", "sonar", "python:S5659", "import jwt\n",
-             'v{i} = jwt.decode(tok, "k", algorithms=["HS256"], verify=False)', "kw:verify", ovr="FFuzzyCall"),
+             'v{i} = jwt.decode(tok, "k", algorithms=["HS256"], verify=False)', "kw:verify", ovr="FFuzzyCall", lost_when_enclosed=True),
     Template("sonar:python/fix-math-isclose", "sonar", "python:S6727", "import math\n", "v{i} = math.isclose(a{i}, 0)", "func",
-             ovr="FFuzzyCall"),
+             ovr="FFuzzyCall", acts_on_any_selected=False),
     Template("sonar:python/secure-tempfile", "sonar", "python:S5445", "import tempfile\n", "v{i} = tempfile.mktemp()", "value",
              tested="stmt", tested_kind="KStmtLine", ovr="FSameLineStmt", pad_ok=False),
     Template("sonar:python/fix-assert-tuple", "sonar", "python:S5905", "", "assert (m{i}, 1)", "test", tested="test",
-             tested_kind="KTuple", pad_ok=False, min_gap=1),
+             tested_kind="KTuple", pad_ok=False, entry_span=2),
     Template("sonar:python/invert-boolean-check", "sonar", "python:S1940", "", "v{i} = not a{i} == b", "value", tested_kind="KOther"),
     Template("sonar:python/numpy-nan-equality", "sonar", "python:S6725", "import numpy as np\n", "v{i} = a{i} == np.nan", "value",
              tested_kind="KOther"),
@@ -55,17 +60,48 @@ TEMPLATES = [
     Template("semgrep:python/rsa-key-size", "semgrep",
              "python.cryptography.security.insufficient-rsa-key-size.insufficient-rsa-key-size",
              "from cryptography.hazmat.primitives.asymmetric import rsa\n",
-             "v{i} = rsa.generate_private_key(public_exponent=65537, key_size=1024)", "kw:key_size", ovr="FFuzzyCall"),
+             "v{i} = rsa.generate_private_key(public_exponent=65537, key_size=1024)", "kw:key_size", ovr="FFuzzyCall",
+             lost_when_enclosed=True),
     Template("semgrep:python/jwt-decode-verify", "semgrep", "python.jwt.security.unverified-jwt-decode.unverified-jwt-decode",
              "import jwt\n", 'v{i} = jwt.decode(tok, "k", algorithms=["HS256"], verify=False)', "kw:verify", ovr="FFuzzyCall",
-             quick=False),
+             quick=False, lost_when_enclosed=True),
     Template("semgrep:python/enable-jinja2-autoescape", "semgrep",
              "python.flask.security.xss.audit.direct-use-of-jinja2.direct-use-of-jinja2", "from jinja2 import Environment\n",
              "v{i} = Environment()", "value", quick=False),
+    Template("sonar:python/url-sandbox", "sonar", "pythonsecurity:S5144", "import requests\n", "v{i} = requests.get(u{i})", "value", quick=False),
+    Template("semgrep:python/url-sandbox", "semgrep", "python.django.security.injection.ssrf.ssrf-injection-requests.ssrf-injection-requests",
+             "import requests\n", "v{i} = requests.get(u{i})", "value", quick=False),
+    Template("sonar:python/sandbox-process-creation", "sonar", "pythonsecurity:S2076", "import subprocess\n", "v{i} = subprocess.run(c{i})",
+             "value", quick=False),
+    Template("semgrep:python/sandbox-process-creation", "semgrep", "python.lang.security.dangerous-system-call.dangerous-system-call",
+             "import subprocess\n", "v{i} = subprocess.run(c{i})", "value", quick=False),
+    Template("semgrep:python/django-secure-set-cookie", "semgrep", DD_COOKIE, "", 'v{i} = resp.set_cookie("k{i}", "v")', "value", quick=False),
+    Template("semgrep:python/use-defusedxml", "semgrep", "python.lang.security.use-defused-xml-parse.use-defused-xml-parse",
+             "from xml.etree.ElementTree import parse\n", 'v{i} = parse("f{i}.xml")', "value", quick=False),
+    Template("sonar:python/fix-float-equality", "sonar", "python:S1244", "", "v{i} = a{i} == 0.1", "value", tested_kind="KOther", quick=False),
     Template("defectdojo:python/avoid-insecure-deserialization", "defectdojo", DD_DESER, "import yaml\n", "v{i} = yaml.load(d{i})",
              "value"),
     Template("defectdojo:python/django-secure-set-cookie", "defectdojo", DD_COOKIE, "", 'v{i} = resp.set_cookie("k{i}", "v")', "value"),
 ]
+
+# SAST codemods of the registry that have NO end-to-end template here, and why.  A registered SAST codemod that is neither in
+# TEMPLATES nor here is reported as lost coverage (mismatch); so is a template whose id is not registered.
+NOT_COVERED = {
+    "semgrep:python/no-csrf-exempt": "acts on a decorator (own selection code, no node_is_selected); needs a Django view layout",
+    "semgrep:python/sql-parameterization": "data-flow driven rewrite over several statements; site = a query built from pieces",
+    "sonar:python/sql-parameterization": "same transformer",
+    "semgrep:python/nan-injection": "own selection and attachment code over an expression inside float(...)",
+    "sonar:python/literal-or-new-object-identity": "tests the comparison OPERATOR node",
+    "sonar:python/django-receiver-on-top": "decorator reordering; site = a decorated function",
+    "sonar:python/exception-without-raise": "the statement text survives inside the fix (`raise <stmt>`): needs a structural observation",
+    "sonar:python/remove-assertion-in-pytest-raises": "multi-statement `with pytest.raises` block",
+    "sonar:python/flask-json-response-type": "needs a Flask view returning json.dumps(...)",
+    "sonar:python/django-json-response-type": "needs a Django view returning HttpResponse(json.dumps(...))",
+    "sonar:python/fix-missing-self-or-cls": "tests a FunctionDef through node_position's special case",
+    "sonar:python/django-model-without-dunder-str": "class-level site",
+    "sonar:python/break-or-continue-out-of-loop": "statement-level site without a marker",
+    "sonar:python/disable-graphql-introspection": "needs a graphql view construction",
+}
 
 RCLASS = {"sonar": "RSonar", "semgrep": "RBase", "defectdojo": "RDefectDojo"}
 FOREIGN_RULE = {"sonar": "python:S9999", "semgrep": "python.lang.foreign.other-rule.other-rule", "defectdojo": "foreign.rule.other"}
@@ -74,7 +110,7 @@ FOREIGN_RULE = {"sonar": "python:S9999", "semgrep": "python.lang.foreign.other-r
 # ------------------------------------------------------------------------------------------------
 # program generation
 # ------------------------------------------------------------------------------------------------
-def gen_program(rng: random.Random, t: Template, n: int, same_line_pair=False, multiline=False):
+def gen_program(rng: random.Random, t: Template, n: int, same_line_pair=False, multiline=False, wrap=None):
     """Returns (source, [site statement text]).  Sites sit at random indentation / column offsets, in blocks."""
     lines = [t.header] if t.header else []
     lines.append("\n" * rng.randint(0, 2))
@@ -88,6 +124,10 @@ def gen_program(rng: random.Random, t: Template, n: int, same_line_pair=False, m
             lines.append(f"class K{i}:\n    def m(self, x):\n")
         pre = " " * indent
         s = t.stmt.format(i=i)
+        if t.ovr == "FFuzzyCall" and " = " in s and (rng.random() < 0.3 if wrap is None else wrap):
+            # the reported call as the argument of another call on the same line: the location lies inside both
+            lhs, rhs = s.split(" = ", 1)
+            s = f"{lhs} = str({rhs})"
         if multiline and s.endswith(")") and "(" in s:
             # spread the call over three lines: the closing parenthesis on its own line
             head, tail = s[:-1], ")"
@@ -189,10 +229,15 @@ def analyse(src: str, t: Template, n: int):
     w.module.visit(v)
     for i in range(1, n + 1):
         small, line = small_of[i]
+        wrapped = False
+        if isinstance(small, cst.Assign) and isinstance(small.value, cst.Call) and isinstance(small.value.func, cst.Name) and \
+                small.value.func.value == "str" and len(small.value.args) == 1 and isinstance(small.value.args[0].value, cst.Call):
+            small = small.with_changes(value=small.value.args[0].value)     # selectors address the wrapped call
+            wrapped = True
         rep = line if t.site == "stmt" else _select(small, t.site)
         tst = line if t.tested == "stmt" else _select(small, t.tested)
         sites[i] = {"reported": span(rep), "tested": span(tst), "tested_node": tst, "line": span(tst)[0],
-                    "reported_is_tuple": isinstance(rep, cst.Tuple)}
+                    "reported_is_tuple": isinstance(rep, cst.Tuple), "wrapped": wrapped}
     pool = {"KCall": v.calls, "KStmtLine": v.stmts, "KTuple": v.tuples, "KOther": v.others}[t.tested_kind]
     tested = []
     site_by_node = {id(s["tested_node"]): i for i, s in sites.items()}
@@ -200,6 +245,8 @@ def analyse(src: str, t: Template, n: int):
     for nd in sorted(pool, key=lambda x: (pos[x].end.line, pos[x].end.column, -pos[x].start.line, -pos[x].start.column)):
         i = site_by_node.get(id(nd))
         if i is None:
+            if not t.acts_on_any_selected:
+                continue
             nxt += 1
             tested.append((nxt, t.tested_kind, span(nd)))
         else:
